@@ -718,6 +718,174 @@ static void case_history(vf_rng *r)
 	vf_sample("%s last: %s", all.c_str(), desc);
 }
 
+/* ---------------------------------------- histories of ranges on fixed data */
+/*
+ * The data stay, the limits of the transformation change between the
+ * transformations (also to ranges in which nothing is visible): the view
+ * always describes the current data under the current range.
+ */
+static void case_range_history(vf_rng *r)
+{
+	static const double ranges[][2] = { { 0, 10 }, { 2, 5 }, { 20, 30 }, { -5, -1 }, { 0, 3 }, { 4, 4.5 }, { 6, 100 }, { 1e3, 1e4 } };
+	int steps = vf_range(r, 2, 5);
+	bool use_cycle = vf_chance(r, 2, 3);
+	size_t n = 2 + vf_below(r, 12);
+	std::vector<double> x(n), y(n);
+	mpt::polyline pl;
+	mpt::reference<mpt::cycle>::type cyc;
+	RT tr(2);
+	char desc[500];
+	std::string all = use_cycle ? "cycle stage, ranges:" : "polyline, ranges:";
+
+	gen_data(r, x.data(), n, 0, 10, 10 + vf_below(r, 6));
+	gen_data(r, y.data(), n, 0, 10, 10 + vf_below(r, 6));
+	vf_fp_u64(0x7a9e); vf_fp_u64(use_cycle); vf_fp(x.data(), n * 8); vf_fp(y.data(), n * 8);
+	if (use_cycle) {
+		vf_at("cycle::set_data");
+		if (cyc.set_data(0, x.data(), n) < 0 || cyc.set_data(1, y.data(), n) < 0) vf_inconclusive("cycle::set_data failed");
+	}
+	for (int s = 0; s < steps; s++) {
+		double rg[2][2];
+		for (int d = 0; d < 2; d++) {
+			const double *c = ranges[vf_below(r, s && vf_chance(r, 1, 3) ? 8 : 2 + 3 * (d == 0) )];
+			if (s && vf_chance(r, 1, 2) && d == 1) c = ranges[0];
+			rg[d][0] = c[0]; rg[d][1] = c[1];
+			tr.set(d, c[0], c[1]);
+		}
+		vf_fp(rg, sizeof(rg));
+		size_t l = snprintf(desc, sizeof(desc), "%s, range %d of %d: x [%g,%g] y [%g,%g], n=%zu:", use_cycle ? "cycle stage" : "polyline", s + 1, steps, rg[0][0], rg[0][1], rg[1][0], rg[1][1], n);
+		for (size_t i = 0; i < n && l + 50 < sizeof(desc); i++) l += snprintf(desc + l, sizeof(desc) - l, " (%.6g,%.6g)", x[i], y[i]);
+		vf_log("%s", desc);
+		bool ok;
+		if (use_cycle) {
+			mpt::cycle::stage *st = cyc.begin();
+			VF_CHECK(st != 0, "cxx:cycle:no-stage", "%s: no stage", desc);
+			vf_at("cycle::stage::transform");
+			ok = st->transform(tr);
+			vf_count("cycle::stage::transform", 1);
+			check_polyline2(st->values(), ok, n, x.data(), y.data(), rg, desc);
+		} else {
+			mpt::value_store st[2];
+			if (!st[0].set(mpt::span<const double>(x.data(), n)) || !st[1].set(mpt::span<const double>(y.data(), n))) vf_inconclusive("value_store::set refused");
+			vf_at("polyline::set");
+			ok = pl.set(tr, mpt::span<const mpt::value_store>(st, 2));
+			vf_count("polyline::set", 1);
+			check_polyline2(pl, ok, n, x.data(), y.data(), rg, desc);
+		}
+		if (s) vf_count("monitor:range-history-steps", 1);
+		if (!ok) vf_count("range-history:nothing-visible", 1);
+		char rb[80];
+		snprintf(rb, sizeof(rb), " [%g,%g]x[%g,%g]%s", rg[0][0], rg[0][1], rg[1][0], rg[1][1], ok ? "" : "!");
+		all += rb;
+	}
+	vf_nontrivial();
+	vf_sample("%s; last: %s", all.c_str(), desc);
+}
+
+/* ----------------------------------------- linepart::set_cut / set_trim */
+static void case_fraction_setters(uint64_t idx, vf_rng *r)
+{
+	static const float vals[] = { 0, 1e-6f, 1.f / 65536, 0.25f, 0.5f, 0.99999f, 1, 1.0000001f, 1.5f, 100, -1e-6f, -0.5f, -1, -100, 3.4e38f, -3.4e38f, INFINITY, -INFINITY, NAN, 1e-40f };
+	float v = idx < sizeof(vals) / sizeof(*vals) ? vals[idx] : (float) ((vf_unit(r) - 0.25) * 2);
+	bool trim = vf_chance(r, 1, 2);
+	mpt::linepart lp(5);
+	lp._cut = (uint16_t) vf_below(r, 65536); lp._trim = (uint16_t) vf_below(r, 65536);
+	mpt::linepart before = lp;
+	vf_fp_u64(0x5e7c); vf_fp(&v, sizeof(v)); vf_fp_u64(trim);
+	vf_nontrivial();
+	vf_at(trim ? "linepart::set_trim" : "linepart::set_cut");
+	bool ok = trim ? lp.set_trim(v) : lp.set_cut(v);
+	vf_count("linepart::set_cut/set_trim", 1);
+	vf_log("%s(%.9g) -> %d, {cut=%u trim=%u}", trim ? "set_trim" : "set_cut", v, ok, lp._cut, lp._trim);
+	bool valid = v >= 0 && v <= 1;   /* NaN: false */
+	VF_CHECK(lp.raw == before.raw && lp.usr == before.usr && (trim ? lp._cut == before._cut : lp._trim == before._trim), "cxx:fraction:other-field-changed", "%s(%.9g) changed another field", trim ? "set_trim" : "set_cut", v);
+	if (!ok) {
+		VF_CHECK(!valid, "cxx:fraction:refused", "%s(%.9g) refused", trim ? "set_trim" : "set_cut", v);
+		VF_CHECK(lp._cut == before._cut && lp._trim == before._trim, "cxx:fraction:refused-modified", "%s(%.9g) refused but the fraction changed (%u -> %u)", trim ? "set_trim" : "set_cut", v, trim ? before._trim : before._cut, trim ? lp._trim : lp._cut);
+		vf_count("fraction:refused", 1);
+	} else {
+		float back = trim ? lp.trim() : lp.cut();
+		VF_CHECK(valid, "cxx:fraction:accepted-out-of-range", "%s(%.9g) accepted, stored code %u (reads %.9g)", trim ? "set_trim" : "set_cut", v, trim ? lp._trim : lp._cut, back);
+		VF_CHECK(std::fabs(back - v) <= 2.0f / 65536, "cxx:fraction:readback", "%s(%.9g) reads back %.9g", trim ? "set_trim" : "set_cut", v, back);
+		vf_count("fraction:accepted", 1);
+	}
+	vf_sample("linepart::%s(%.9g) -> %s", trim ? "set_trim" : "set_cut", v, ok ? "accepted" : "refused");
+}
+/* ------------------------------- transform3 parts on limited (log) axes */
+/*
+ * layout::graph::transform3::part() with TransformLimit, linear and
+ * logarithmic (TransformLg: limits are exponents, the visible range is
+ * [10^floor(min), 10^ceil(max)], the line is drawn in log10 space): the parts
+ * of a run of positive values satisfy the one-dimension oracle, and on a
+ * logarithmic axis cut / trim are the crossing fractions in log space.
+ */
+static void case_transform3(vf_rng *r)
+{
+	bool lg = vf_chance(r, 2, 3);
+	int dim = (int) vf_below(r, 3);
+	double lmin, lmax, range[2];
+	size_t n = 2 + vf_below(r, 14);
+	double *v = static_cast<double *>(vf_xalloc(n * sizeof(*v)));
+	mpt::layout::graph::transform3 t3;
+	char desc[500];
+
+	if (lg) { lmin = vf_range(r, -3, 1) + (vf_chance(r, 1, 2) ? 0 : vf_unit(r)); lmax = lmin + 1 + vf_below(r, 3) - (vf_chance(r, 1, 2) ? 0 : vf_unit(r) * 0.5); range[0] = exp10(floor(lmin)); range[1] = exp10(ceil(lmax)); }
+	else { lmin = range[0] = (double) vf_range(r, -5, 5); lmax = range[1] = lmin + 1 + vf_below(r, 10); }
+	t3._dim[dim].limit.min = lmin; t3._dim[dim].limit.max = lmax;
+	t3._dim[dim]._flags |= mpt::TransformLimit | (lg ? mpt::TransformLg : 0);
+	for (size_t i = 0; i < n; i++) {
+		double u = vf_unit(r);
+		if (lg) v[i] = vf_below(r, 10) < 6 ? range[0] * pow(range[1] / range[0], u) : vf_chance(r, 1, 2) ? range[0] * pow(10, -3 * u - 0.01) : range[1] * pow(10, 3 * u + 0.01);
+		else v[i] = vf_below(r, 10) < 6 ? range[0] + (range[1] - range[0]) * u : vf_chance(r, 1, 2) ? range[0] - 0.01 - 5 * u : range[1] + 0.01 + 5 * u;
+		if (vf_chance(r, 1, 12)) v[i] = range[vf_below(r, 2)];
+	}
+	size_t l = snprintf(desc, sizeof(desc), "transform3 dim %d %s limit [%g,%g] (values [%g,%g]) n=%zu:", dim, lg ? "log" : "linear", lmin, lmax, range[0], range[1], n);
+	for (size_t i = 0; i < n && l + 30 < sizeof(desc); i++) l += snprintf(desc + l, sizeof(desc) - l, " %.17g", v[i]);
+	vf_log("%s", desc);
+	vf_fp_u64(0x73 + lg); vf_fp(v, n * sizeof(*v)); vf_fp(&lmin, 8); vf_fp(&lmax, 8);
+	if (c18_crossings(v, n, range)) vf_nontrivial();
+
+	std::vector<c18_part> parts;
+	std::vector<size_t> windows;
+	size_t pos = 0;
+	while (pos < n) {
+		vf_at("transform3::part");
+		mpt::linepart lp = t3.part(dim, v + pos, (int) (n - pos));
+		vf_count(lg ? "transform3::part (log limit)" : "transform3::part (linear limit)", 1);
+		if (vf_logging) vf_log("  part at %zu -> {raw=%u usr=%u cut=%u trim=%u}", pos, lp.raw, lp.usr, lp._cut, lp._trim);
+		c18_part c = { lp.raw, lp.usr, lp._cut, lp._trim };
+		parts.push_back(c); windows.push_back(n - pos);
+		if (!lp.raw || lp.raw > n - pos) break;
+		pos += lp.raw;
+	}
+	if (!lg) c18_check_parts("transform3", v, n, range, parts.data(), parts.size(), windows.data(), C18_COMPLETE);
+	else {
+		/* structure on the raw values, fractions in log space */
+		c18_check_parts("transform3-log", v, n, range, parts.data(), parts.size(), windows.data(), C18_ENDS_FREE);
+		size_t o = 0;
+		for (auto &p : parts) {
+			if (p.usr >= 2) {
+				double f0 = v[o], f1 = v[o + 1], e0 = v[o + p.usr - 1], e1 = v[o + p.usr - 2];
+				if (f0 < range[0] || f0 > range[1]) {
+					double b = f0 < range[0] ? range[0] : range[1];
+					long double t = (log10l(b) - log10l(f0)) / (log10l(f1) - log10l(f0)), dec = p.cut / 65536.0L;
+					vf_count("monitor:log-cut-fraction", 1);
+					if (fabsl(dec - t) > 1.0L / 65536 * 1.0001L && !vf_known("model:transform3-log:cut-fraction")) vf_fail("model:transform3-log:cut-fraction", "%s: part at %zu: cut decodes to %.9Lf, in log10 space the line from %.17g to %.17g crosses %.17g at %.9Lf", desc, o, dec, f0, f1, b, t);
+				} else VF_CHECK(!p.cut, "model:transform3-log:cut-without-crossing", "%s: part at %zu starts in range with cut %u", desc, o, p.cut);
+				if (e0 < range[0] || e0 > range[1]) {
+					double b = e0 < range[0] ? range[0] : range[1];
+					long double t = (log10l(b) - log10l(e0)) / (log10l(e1) - log10l(e0)), dec = p.trim / 65536.0L;
+					vf_count("monitor:log-trim-fraction", 1);
+					if (fabsl(dec - t) > 1.0L / 65536 * 1.0001L && !vf_known("model:transform3-log:trim-fraction")) vf_fail("model:transform3-log:trim-fraction", "%s: part at %zu: trim decodes to %.9Lf, in log10 space the line from %.17g back to %.17g crosses %.17g at %.9Lf", desc, o, dec, e0, e1, b, t);
+				} else VF_CHECK(!p.trim, "model:transform3-log:trim-without-crossing", "%s: part at %zu ends in range with trim %u", desc, o, p.trim);
+			}
+			o += p.raw;
+		}
+	}
+	vf_xfree(v, n * sizeof(*v));
+	vf_sample("%s", desc);
+}
+
 /* ----------------------------------------------------------------- entry */
 static uint64_t n_a1() { return vf_thorough ? 400000 : 40000; }
 static uint64_t n_set() { return vf_thorough ? 2000 : 200; }
@@ -726,8 +894,11 @@ static uint64_t n_pl() { return vf_thorough ? 200000 : 20000; }
 static uint64_t n_ndp() { return vf_thorough ? 3000000 : 150000; }
 static uint64_t n_pl2() { return vf_thorough ? 500000 : 40000; }
 static uint64_t n_hist() { return vf_thorough ? 500000 : 40000; }
+static uint64_t n_rhist() { return vf_thorough ? 300000 : 30000; }
+static uint64_t n_frac() { return vf_thorough ? 20000 : 2000; }
+static uint64_t n_t3() { return vf_thorough ? 400000 : 40000; }
 
-extern "C" uint64_t vf_cases(void) { return n_a1() + n_set() + n_a2() + n_pl() + nd_ex_count() + n_ndp() + pl2_ex_count() + n_pl2() + norange_count() + n_hist(); }
+extern "C" uint64_t vf_cases(void) { return n_a1() + n_set() + n_a2() + n_pl() + nd_ex_count() + n_ndp() + pl2_ex_count() + n_pl2() + norange_count() + n_hist() + n_rhist() + n_frac() + n_t3(); }
 extern "C" void vf_case(uint64_t idx, vf_rng *r)
 {
 	if (idx < n_a1()) { case_apply1(r); return; }
@@ -747,5 +918,11 @@ extern "C" void vf_case(uint64_t idx, vf_rng *r)
 	if (idx < n_pl2()) { case_polyline2_prng(r); return; }
 	idx -= n_pl2();
 	if (idx < norange_count()) { case_norange(idx, r); return; }
-	case_history(r);
+	idx -= norange_count();
+	if (idx < n_hist()) { case_history(r); return; }
+	idx -= n_hist();
+	if (idx < n_rhist()) { case_range_history(r); return; }
+	idx -= n_rhist();
+	if (idx < n_frac()) { case_fraction_setters(idx, r); return; }
+	case_transform3(r);
 }
